@@ -53,6 +53,12 @@ def shaped(g, rng):
     out.append(("skip-tag-accessor", sp))
     sp = mapgen.to_new(rng, g.pair(**dict(BASE, names=["ident"], kinds=["sub", "each"])), "dest", getonly=0.7, setonly=0.0)
     out.append(("ctor-only-sub", sp))
+    # both sides accessor mode, set-only fields on the source: ToX must not read them (constructor arguments included)
+    for i in range(2):
+        sp = g.pair(**dict(BASE, names=["ident"], kinds=["same", "conv"], flags={"way": "to"}))
+        mapgen.to_new(rng, sp, "src", getonly=0.0, setonly=0.6, keep_exported=0.0, newmark=0.0)
+        mapgen.to_new(rng, sp, "dest", getonly=0.2, setonly=0.0, newmark=0.0)
+        out.append(("both-new-src-setonly", sp))
     return out
 
 
